@@ -3,20 +3,22 @@
 (* by the monitor AppMon!MStep (C13-C16).                                         *)
 EXTENDS AppMon, Json, IOUtils, VfEmit
 Trace == ndJsonDeserialize(IOEnv.TRACE_FILE)
-VARIABLES l, st, dead, bad, nacc
-tvars == <<l, st, dead, bad, nacc>>
-TInit == l = 1 /\ st = MInit /\ dead = TRUE /\ bad = <<>> /\ nacc = 0
+VARIABLES l, st, dead, bad, nacc, flt
+tvars == <<l, st, dead, bad, nacc, flt>>
+TInit == l = 1 /\ st = MInit /\ dead = TRUE /\ bad = <<>> /\ nacc = 0 /\ flt = FALSE
 TNext ==
   /\ l <= Len(Trace)
   /\ l' = l + 1
   /\ LET e == Trace[l] IN
-     IF e.ev = "begin" THEN st' = MInit /\ dead' = FALSE /\ bad' = bad /\ nacc' = nacc
-     ELSE IF e.ev = "end" THEN st' = st /\ dead' = TRUE /\ bad' = bad /\ nacc' = IF dead THEN nacc ELSE nacc + 1
-     ELSE IF dead THEN UNCHANGED <<st, dead, bad, nacc>>
+     IF e.ev = "begin" THEN st' = MInit /\ dead' = FALSE /\ bad' = bad /\ nacc' = nacc /\ flt' = FALSE
+     ELSE IF e.ev = "end" THEN st' = st /\ dead' = TRUE /\ bad' = bad /\ nacc' = (IF dead \/ flt THEN nacc ELSE nacc + 1) /\ flt' = FALSE
+     ELSE IF dead THEN UNCHANGED <<st, dead, bad, nacc, flt>>
      ELSE LET r == MStep(st, e) IN
-          IF r.ok THEN st' = r.s /\ UNCHANGED <<dead, bad, nacc>>
-          ELSE st' = st /\ dead' = TRUE /\ nacc' = nacc
+          IF r.ok THEN st' = r.s /\ UNCHANGED <<dead, bad, nacc, flt>>
+          ELSE /\ nacc' = nacc
                /\ bad' = Append(bad, [tid |-> e.tid, at |-> e.i, ev |-> e.ev, why |-> r.why])
+               /\ IF r.why \in Recoverable /\ ~flt THEN st' = r.s /\ dead' = FALSE /\ flt' = TRUE   \* once per trace
+                  ELSE st' = st /\ dead' = TRUE /\ flt' = flt
 TSpec == TInit /\ [][TNext]_tvars
 CloseAtMostOnce == dead \/ st.nclose <= 1
 Done == l = Len(Trace) + 1
